@@ -29,9 +29,12 @@ func run(seed uint64, n int, tier string, outDir string) []*Stats {
 
 	stg := NewStats("c01-literal-glue", seed)
 	extra += glueLiterals(r, stg, cf, n)
-	glueNodeLiterals(r, stg, n)
 	glueJSX(r, stg, n/3)
-	stg.Finish("`x = <literal>;` programs (string/template literals spelled with a random mix of raw characters and every escape form over the UTF-16 classes; numbers spelled in decimal, exponent, hex, binary and octal) through api.Transform under charset x minify-whitespace x line-limit x unicode-escapes/template-literal support x platform: the emitted literal is cut out and evaluated by the Coq specification and an exact harness oracle against the input's value, ASCII-only and </script checks on the whole output; fixed token-gluing/precedence/ASI/identifier/regexp/bigint/template hazard programs and generated JSX programs (preserve-then-transform = transform = automatic on a normalising runtime) executed in node; distinct_nontrivial = distinct (program, options)")
+	stg.Finish("`x = <literal>;` programs (string/template literals spelled with a random mix of raw characters and every escape form over the UTF-16 classes; numbers spelled in decimal, exponent, hex, binary and octal) through api.Transform under charset x minify-whitespace x line-limit x unicode-escapes/template-literal support x platform: the emitted literal is cut out and evaluated by the Coq specification and an exact harness oracle against the input's value, ASCII-only and </script checks on the whole output; generated JSX programs (preserve-then-transform = transform = automatic on a normalising runtime) executed in node; distinct_nontrivial = distinct (program, options)")
+
+	sth := NewStats("c01-hazards", seed)
+	glueNodeLiterals(r, sth, n)
+	sth.Finish("fixed must-pass corpus, identical for every seed: token-gluing (numbers before dots, + +, - --, a-- > b, division before a regular expression), precedence, ASI, optional chains, new/call, arrow bodies, for-init `in`, directives, identifiers and property keys with non-ASCII and escapes, regexp, bigint, template and tagged-template raw strings, Annex B block functions, each x {pretty, minify-whitespace} x {platform browser, node}, plus one seeded option set (charset, line-limit, format) per program; input and output executed in node and probe logs compared, every difference re-run once; programs that replay a recorded known finding run last; distinct_nontrivial = distinct (program, options)")
 
 	// 2. behaviour through the public API (node oracle)
 	st := NewStats("c01", seed)
@@ -40,7 +43,7 @@ func run(seed uint64, n int, tier string, outDir string) []*Stats {
 	if err := os.WriteFile(filepath.Join(outDir, "c01_cases.v"), []byte(cf.String()+extra), 0o644); err != nil {
 		panic(err)
 	}
-	return []*Stats{sts, stn, stg, st}
+	return []*Stats{sts, stn, stg, sth, st}
 }
 
 type tcase struct {
